@@ -864,7 +864,7 @@ def run_items(chk, items, nworkers=4, module_size=8):
         for ids, mm, exp, fem in ex.map(one, range(nworkers)):
             for sk in mm["skipped"]:
                 out.append({"item": ids[sk["item"]], "status": "skipped", "why": sk["why"],
-                            "ffcx_error": sk.get("ffcx_error", False), "missing_kernel": sk.get("missing_kernel", False),
+                            "ffcx_error": sk.get("ffcx_error", False), "missing_kernel": sk.get("missing_kernel", False), "rank_mismatch": sk.get("rank_mismatch", False),
                             "numba_error": sk.get("numba_error"), "history_error": sk.get("history_error", False),
                             "tb": sk.get("tb", "")})
             for m in mm["meas"]:
@@ -903,6 +903,8 @@ def report(chk, items, recs, pid_filter=None):
                               {"item": it})
             elif r.get("ffcx_error"):
                 chk.note(f"ffcx rejected/failed on {lab}: {r['why'][:200]}")
+            elif r.get("rank_mismatch"):
+                chk.violation(f"{lab}:rank", f"{lab}: {r['why']}", {"item": it})
             elif r.get("missing_kernel"):
                 chk.violation(f"{lab}:missing-kernel", f"{lab}: {r['why']}", {"item": it})
             elif "out of model" not in r["why"]:
